@@ -27,6 +27,8 @@ func init() {
 		out["writer"] = writerFacts(repo)
 		out["sort"] = sortFacts(repo)
 		out["typecache"] = typeCacheFacts(repo)
+		out["builders"] = builderFacts(repo)
+		out["globalwrites"] = globalWriteFacts(repo)
 		enc := json.NewEncoder(os.Stdout)
 		enc.SetIndent("", " ")
 		enc.Encode(out)
@@ -360,4 +362,178 @@ func typeCacheFacts(repo string) map[string]interface{} {
 	}
 	sort.Slice(rows, func(i, j int) bool { return rows[i].Recv+rows[i].Method < rows[j].Recv+rows[j].Method })
 	return map[string]interface{}{"cacheWriters": rows}
+}
+
+
+// builderFacts: every method `func (block *Block) NewX(params) *T` of package ir must be a pure delegation to the free
+// constructor of the same name: `v := NewX(params...)` with the parameters passed unchanged and in order, then
+// `block.Insts = append(block.Insts, v)` or `block.Term = v`, then `return v` - and nothing else.
+func builderFacts(repo string) []map[string]interface{} {
+	fset, files := parseDir(repo, "ir")
+	var out []map[string]interface{}
+	for _, f := range files {
+		for _, d := range f.Decls {
+			fd, ok := d.(*ast.FuncDecl)
+			if !ok || fd.Recv == nil || !strings.HasPrefix(fd.Name.Name, "New") || fd.Body == nil {
+				continue
+			}
+			st, ok := fd.Recv.List[0].Type.(*ast.StarExpr)
+			if !ok {
+				continue
+			}
+			if id, ok := st.X.(*ast.Ident); !ok || id.Name != "Block" {
+				continue
+			}
+			why := ""
+			var params []string
+			variadic := false
+			for _, p := range fd.Type.Params.List {
+				if _, ok := p.Type.(*ast.Ellipsis); ok {
+					variadic = true
+				}
+				for _, n := range p.Names {
+					params = append(params, n.Name)
+				}
+			}
+			body := fd.Body.List
+			if len(body) != 3 {
+				why = fmt.Sprintf("%d statements instead of 3", len(body))
+			} else {
+				as, ok := body[0].(*ast.AssignStmt)
+				var v string
+				if !ok || len(as.Lhs) != 1 || len(as.Rhs) != 1 {
+					why = "first statement is not `v := NewX(...)`"
+				} else {
+					v = src(fset, as.Lhs[0])
+					call, ok := as.Rhs[0].(*ast.CallExpr)
+					if !ok || src(fset, call.Fun) != fd.Name.Name {
+						why = "first statement does not call the free constructor " + fd.Name.Name
+					} else {
+						var args []string
+						for _, a := range call.Args {
+							args = append(args, src(fset, a))
+						}
+						if strings.Join(args, ",") != strings.Join(params, ",") || (variadic != (call.Ellipsis != token.NoPos)) {
+							why = "arguments are not the parameters, unchanged and in order"
+						}
+					}
+				}
+				if why == "" {
+					s1 := strings.Join(strings.Fields(src(fset, body[1])), " ")
+					if s1 != fmt.Sprintf("block.Insts = append(block.Insts, %s)", v) && s1 != fmt.Sprintf("block.Term = %s", v) {
+						why = "second statement is not the insertion into the block: " + s1
+					}
+				}
+				if why == "" {
+					if strings.Join(strings.Fields(src(fset, body[2])), " ") != "return "+v {
+						why = "does not return the constructed value"
+					}
+				}
+			}
+			out = append(out, map[string]interface{}{"name": fd.Name.Name, "delegates": why == "", "why": why})
+		}
+	}
+	sort.Slice(out, func(i, j int) bool { return out[i]["name"].(string) < out[j]["name"].(string) })
+	return out
+}
+
+// globalWriteFacts: package-level variables of the printing packages that are WRITTEN inside a function body (assignment to
+// the variable, to an index or field of it, or append into it). Printing runs unlocked on many goroutines, so there must be none.
+func globalWriteFacts(repo string) []map[string]interface{} {
+	var out []map[string]interface{}
+	for _, dir := range []string{"ir", "ir/types", "ir/constant", "ir/metadata", "ir/enum", "ir/value", "internal/enc", "internal/natsort", "internal/gep"} {
+		fset, files := parseDir(repo, dir)
+		globals := map[string]bool{}
+		for _, f := range files {
+			for _, d := range f.Decls {
+				gd, ok := d.(*ast.GenDecl)
+				if !ok || gd.Tok != token.VAR {
+					continue
+				}
+				for _, sp := range gd.Specs {
+					for _, n := range sp.(*ast.ValueSpec).Names {
+						if n.Name != "_" {
+							globals[n.Name] = true
+						}
+					}
+				}
+			}
+		}
+		root := func(e ast.Expr) string {
+			for {
+				switch x := e.(type) {
+				case *ast.IndexExpr:
+					e = x.X
+				case *ast.SelectorExpr:
+					e = x.X
+				case *ast.StarExpr:
+					e = x.X
+				case *ast.ParenExpr:
+					e = x.X
+				case *ast.Ident:
+					return x.Name
+				default:
+					return ""
+				}
+			}
+		}
+		for _, f := range files {
+			for _, d := range f.Decls {
+				fd, ok := d.(*ast.FuncDecl)
+				if !ok || fd.Body == nil || fd.Name.Name == "init" {
+					continue
+				}
+				// names shadowed by parameters / receivers / local declarations are not the globals
+				local := map[string]bool{}
+				if fd.Recv != nil {
+					for _, p := range fd.Recv.List {
+						for _, n := range p.Names {
+							local[n.Name] = true
+						}
+					}
+				}
+				for _, p := range fd.Type.Params.List {
+					for _, n := range p.Names {
+						local[n.Name] = true
+					}
+				}
+				ast.Inspect(fd.Body, func(n ast.Node) bool {
+					switch x := n.(type) {
+					case *ast.AssignStmt:
+						if x.Tok == token.DEFINE {
+							for _, l := range x.Lhs {
+								if id, ok := l.(*ast.Ident); ok {
+									local[id.Name] = true
+								}
+							}
+							return true
+						}
+						for _, l := range x.Lhs {
+							r := root(l)
+							if r != "" && globals[r] && !local[r] {
+								out = append(out, map[string]interface{}{"pkg": dir, "func": fd.Name.Name, "var": r, "stmt": src(fset, x)})
+							}
+						}
+					case *ast.IncDecStmt:
+						r := root(x.X)
+						if r != "" && globals[r] && !local[r] {
+							out = append(out, map[string]interface{}{"pkg": dir, "func": fd.Name.Name, "var": r, "stmt": src(fset, x)})
+						}
+					case *ast.DeclStmt:
+						if gd, ok := x.Decl.(*ast.GenDecl); ok {
+							for _, sp := range gd.Specs {
+								if vs, ok := sp.(*ast.ValueSpec); ok {
+									for _, n := range vs.Names {
+										local[n.Name] = true
+									}
+								}
+							}
+						}
+					}
+					return true
+				})
+			}
+		}
+	}
+	return out
 }
